@@ -47,9 +47,9 @@ def subF : Nat → RE → RE → Bool
   | n + 1, cls rs, star x => subF n (cls rs) x
   | n + 1, seq a b, seq a' b' => subF n a a' && subF n b b'
   | n + 1, seq a b, alt x y => subF n (seq a b) x || subF n (seq a b) y
-  | n + 1, seq a b, star x => subF n a (star x) && subF n b (star x)
+  | n + 1, seq a b, star x => (subF n a (star x) && subF n b (star x)) || subF n (seq a b) x
   | n + 1, alt a b, r' => subF n a r' && subF n b r'
-  | n + 1, star a, star a' => subF n a a'
+  | n + 1, star a, star a' => subF n a a' || subF n a (star a')
   | n + 1, star a, alt x y => subF n (star a) x || subF n (star a) y
   | _ + 1, _, _ => false
 
@@ -84,6 +84,24 @@ theorem star_append {x : RE} {u v : List Nat} (hu : Matches (star x) u) (hv : Ma
     rw [List.append_assoc]
     exact .starCons h1 (ih2 rfl)
 
+theorem star_star {a x : RE} (h : ∀ {w}, Matches a w → Matches (star x) w) {w : List Nat}
+    (hm : Matches (star a) w) : Matches (star x) w := by
+  generalize hr : star a = r at hm
+  induction hm with
+  | eps => cases hr
+  | cls _ => cases hr
+  | seq _ _ => cases hr
+  | altL _ => cases hr
+  | altR _ => cases hr
+  | starNil => exact .starNil
+  | starCons h1 _ _ ih2 =>
+    cases hr
+    exact star_append (h h1) (ih2 rfl)
+
+theorem star_single {x : RE} {w : List Nat} (h : Matches x w) : Matches (star x) w := by
+  have h2 : Matches (star x) (w ++ []) := .starCons h .starNil
+  simpa using h2
+
 theorem subF_sound {n : Nat} {r r' : RE} (h : subF n r r' = true) : ∀ {w}, Matches r w → Matches r' w := by
   fun_induction subF n r r' <;> intro w hm
   case case1 => cases h
@@ -113,16 +131,21 @@ theorem subF_sound {n : Nat} {r r' : RE} (h : subF n r r' = true) : ∀ {w}, Mat
     rcases Bool.or_eq_true _ _ |>.mp h with h | h
     · exact .altL (ih2 h hm)
     · exact .altR (ih1 h hm)
-  case case11 ih2 ih1 =>
-    obtain ⟨ha, hb⟩ := Bool.and_eq_true _ _ |>.mp h
-    obtain ⟨u, v, rfl, hu, hv⟩ := matches_seq.mp hm
-    exact star_append (ih2 ha hu) (ih1 hb hv)
+  case case11 ih3 ih2 ih1 =>
+    rcases Bool.or_eq_true _ _ |>.mp h with h | h
+    · obtain ⟨ha, hb⟩ := Bool.and_eq_true _ _ |>.mp h
+      obtain ⟨u, v, rfl, hu, hv⟩ := matches_seq.mp hm
+      exact star_append (ih3 ha hu) (ih2 hb hv)
+    · exact star_single (ih1 h hm)
   case case12 ih2 ih1 =>
     obtain ⟨ha, hb⟩ := Bool.and_eq_true _ _ |>.mp h
     rcases matches_alt.mp hm with hm | hm
     · exact ih2 ha hm
     · exact ih1 hb hm
-  case case13 ih1 => exact star_mono (fun hx => ih1 h hx) hm
+  case case13 ih2 ih1 =>
+    rcases Bool.or_eq_true _ _ |>.mp h with h | h
+    · exact star_mono (fun hx => ih2 h hx) hm
+    · exact star_star (fun hx => ih1 h hx) hm
   case case14 ih2 ih1 =>
     rcases Bool.or_eq_true _ _ |>.mp h with h | h
     · exact .altL (ih2 h hm)
